@@ -22,13 +22,31 @@ def run(chk):
     res = json.load(open(resf))
     for v in res["violations"] or []:
         chk.violation(v["sig"], v["desc"], dict(kind="c11", detail=v))
-    chk.cov["evaluations"] = res["scenarios"]
-    chk.cov["distinct_nontrivial"] = res["distinct"]
+    # client level: the consumers of a decoded response (scanner.Next, the hbase:meta lookup, Increment, CheckAndPut, SendBatch)
+    wd2 = vlib.scratch("verif-c11c-")
+    t2 = vlib.go_test("", "^TestVerifC11Client$", env=dict(VERIF_OUT=wd2, VERIF_SEED=str(chk.seed)), timeout=1700, race=False)
+    resf2 = os.path.join(wd2, "c11c_result.json")
+    if not os.path.exists(resf2) or t2["rc"] != 0:
+        v = vlib.classify_panic(t2["out"])
+        if v:
+            chk.violation("client-level:" + v["sig"], v["desc"], dict(kind="panic"))
+            return
+        raise vlib.MachineryError("C11 client-level driver failed:\n" + t2["out"][-3500:])
+    res2 = json.load(open(resf2))
+    for v in res2["violations"] or []:
+        chk.violation(v["sig"], v["desc"], dict(kind="c11-client", detail=v))
+    chk.cov["client_level_scenarios"] = res2["scenarios"]
+    chk.cov["client_level_cases_not_reached"] = sorted(k for k in (res2.get("extra") or {}) if k.startswith("not-reached:"))[:20]
+    chk.cov["evaluations"] = res["scenarios"] + res2["scenarios"]
+    chk.cov["distinct_nontrivial"] = res["distinct"] + res2["distinct"]
     chk.cov["rule"] = ("structured: every (call kind, field, operator) case enumerated by TLC from Malform.tla (frame header, call id, "
                        "cellblock length, exception fields, response body, the five length fields of a cell, every prefix of the cellblock, "
                        "cell counts, scan partial flags, multi indices / missing / contradictory results / region results, region-info cell) "
                        "turned into concrete bytes and fed to the real reader; plus seeded byte-level mutations (flip, overwrite, truncate, "
-                       "splice, extreme bytes) of valid get / mutate / scan / multi frames. distinct = structured cases; oracle = Orderly")
+                       "splice, extreme bytes) of valid get / mutate / scan / multi frames. distinct = structured cases; oracle = Orderly. Client level: "
+                       "a healthy simulated cluster answers the 1st / 2nd request of a public API call (get, put, increment, check-and-put, scan "
+                       "with and without partial results, batch) or of its hbase:meta lookup with a valid protobuf whose counts / flags / "
+                       "columns are inconsistent; the call must end (result or error) without a panic and the client must work afterwards")
     chk.cov["samples"] = res["samples"] or [dict(note="no samples")]
     chk.cov["states"] = 1
     chk.assumptions += ["the reader is entered through client.receive with the call registered, as the reader goroutine does",
